@@ -698,6 +698,10 @@ void DOMLSSerializerImpl::processNode(const DOMNode* const nodeToWrite, int leve
             ensureValidString(nodeToWrite, nodeName);
             ensureValidString(nodeToWrite, nodeValue);
 
+            // "?>" cannot be written inside a processing instruction
+            if (nodeValue && XMLString::patternMatch(nodeValue, gEndPI) != -1)
+                reportError(nodeToWrite, DOMError::DOM_SEVERITY_FATAL_ERROR, XMLDOMMsg::INVALID_CHARACTER_ERR);
+
             if(level == 1 && getFeature(FORMAT_PRETTY_PRINT_1ST_LEVEL_ID))
                 printNewLine();
 
